@@ -178,6 +178,59 @@ def inputs_for(prop, tier):
     return items
 
 
+LIFE_TRACE_CFG = """SPECIFICATION TSpec
+CONSTANTS
+  Policy = "{policy}"
+  I = 1
+  J = 0
+  S = {s}
+  Day = 1
+  WinFrom = 0
+  WinTo = 0
+  MaxTime = {maxtime}
+  DevNoClosedCheck = FALSE
+  DevTaskEndsOnError = FALSE
+INVARIANTS TypeOK NoWorkStartsAfterClose TasksAlive
+POSTCONDITION Accepted
+CHECK_DEADLOCK FALSE
+"""
+
+
+def life_mechanism(v, files, work, tag):
+    """Mechanism level: the ordered log of background hook points and driver marks of every scenario must be
+    a behaviour of Lifecycle.tla (TraceLife.tla); a rejection is drift, not an alarm."""
+    groups = {}
+    for f in files:
+        for e in read_ndjson(f)[1:]:
+            if "life" in e and "life_cfg" in e:
+                k = (e["life_cfg"]["policy"], bool(e["life_cfg"]["sync"]))
+                groups.setdefault(k, []).append({"life": e["life"], "kind": e.get("kind") or e.get("input", {}).get("pattern")})
+    okn, drift = 0, []
+    for (pol, sync), evs in sorted(groups.items()):
+        f = os.path.join(work, f"life_{pol}_{int(sync)}.ndjson")
+        with open(f, "w") as fh:
+            fh.write("\n".join(json.dumps(x) for x in evs) + "\n")
+        mx = max(sum(1 for x in e["life"] if x["name"].endswith(".woke")) for e in evs) + 3
+        cfg = write_cfg(f"tracelife_{tag}_{pol}_{int(sync)}.cfg", LIFE_TRACE_CFG.format(policy=pol, s=1 if sync else 0, maxtime=mx))
+        r = tlc("TraceLife.tla", cfg, workers=1, env={"TRACE": f, "JAVA_TOOL_OPTIONS": JAVA_OPTS_TRACE}, timeout=600, xmx="3g",
+                metatag=f"trlife-{tag}-{pol}-{int(sync)}")
+        v.cov["transitions"] += r.generated
+        v.cov["states"] += r.distinct
+        if r.ok:
+            okn += len(evs)
+            continue
+        m = re.search(r"LIFECYCLE MECHANISM DRIFT.*", r.out, re.S)
+        if not m and not r.postcondition_failed and not r.violated:
+            raise ToolError(f"life-cycle mechanism validation of {f} failed in the tooling: {r.out[-2500:]}")
+        drift.append({"config": f"policy={pol} interval-sync={sync}",
+                      "first_unexplained": " ".join((m.group(0) if m else (r.violated or "?")).split())[:400]})
+    v.cov["lifecycle_timelines_accepted"] = okn
+    if drift:
+        v.cov["model_drift"] = True
+        v.cov["lifecycle_mechanism_drift"] = drift[:5]
+        log(f"model drift: life-cycle timelines that are not behaviours of Lifecycle.tla step by step (not an alarm): {drift[0]}")
+
+
 def synth_abort(note, evs, how):
     ev = {"ev": note.get("ev", "conc"), "abort": how, "input": note.get("input", {}), "kind": "abort"}
     return ev
@@ -279,6 +332,8 @@ def check(prop, tier):
             payload = {"property": prop, "invariant": r.violated, "why": why, "trace_file": f, "line": line, "seed": seed(), "scenario": ev}
             v.violation(f"{why} {json.dumps(ev.get('input', {k: ev.get(k) for k in ('kind', 'big')}))[:300]} [line {line} of {os.path.basename(f)}]",
                         save_replay(prop, payload))
+        if mode in ("close", "bg") and not v.violations:
+            life_mechanism(v, files, work, tag)
         if drift:
             v.cov["model_drift"] = True
             v.cov["drift_events"] = drift
